@@ -201,10 +201,13 @@ def gen_twins(m, rng, job):
     g.long = 0.01
     pair = None
     for _ in range(job.get('nops', 6)):
-        if pair is None or rng.random() < 0.2:
-            pair = g.pair_new() or pair
-            continue
-        pair = g.step_pair(*pair) or pair
+        try:
+            if pair is None or rng.random() < 0.2:
+                pair = g.pair_new() or pair
+                continue
+            pair = g.step_pair(*pair) or pair
+        except (IndexError, KeyError):
+            pass          # a step made for granted failed on the implementation: logged and judged; go on with the pair
     # every AnsiStr register: render through the three routes
     for r in g.regs_of('A')[:6]:
         g.do({'op': 'render', 'r': r, 'how': rng.choice(['str', 'format', 'to_str'])})
